@@ -318,8 +318,16 @@ def check(run):
             comp = lp._parent
             call = getattr(comp, '_parent', None)
             c_ = q.canon_atom(comp.elt) if isinstance(comp, (ast.GeneratorExp, ast.ListComp)) else None
-            okk = isinstance(call, ast.Call) and isinstance(call.func, ast.Name) and call.func.id == 'all' and not lp.ifs and c_ is not None and \
-                c_[0] == '==' and c_[3] and v_ in (c_[1], c_[2]) and 'getattr(' in c_[1] + c_[2]
+            okk = isinstance(call, ast.Call) and isinstance(call.func, ast.Name) and not lp.ifs and c_ is not None and \
+                c_[0] == '==' and v_ in (c_[1], c_[2]) and 'getattr(' in c_[1] + c_[2] and (', %s, None)' % k) in c_[1] + c_[2]
+            if okk and call.func.id == 'all':
+                okk = c_[3]
+            elif okk and call.func.id == 'any':
+                # not any(getattr(e, k, None) != v for ..)
+                neg = getattr(call, '_parent', None)
+                okk = not c_[3] and isinstance(neg, ast.UnaryOp) and isinstance(neg.op, ast.Not)
+            else:
+                okk = False
             return okk, 'all(getattr(e, k, None) == v for ..)'
         exits = [x for st_ in lp.body for x in ast.walk(st_) if isinstance(x, (ast.Break, ast.Return, ast.Continue)) and q.enclosing(x, ast.For) is lp]
         trues_else = [x for x in lp.orelse if isinstance(x, ast.Return) and isinstance(x.value, ast.Constant) and x.value.value is True]
@@ -328,9 +336,10 @@ def check(run):
             return okk, 'for/else'
         ret_false = [x for x in exits if isinstance(x, ast.Return)]
         if ret_false:
-            after = [x for x in q.walk(fn, False) if isinstance(x, ast.Return) and not q.in_node(x, lp)]
+            blk_ = q.block_of(lp)
+            nxt = blk_[blk_.index(lp) + 1] if blk_ and blk_.index(lp) + 1 < len(blk_) else None     # what runs when the loop found no mismatch
             okk = all(isinstance(x.value, ast.Constant) and x.value.value is False and mismatch(guard_atoms(x, stop=lp)) for x in ret_false) and len(ret_false) == len(exits) and \
-                len(after) == 1 and isinstance(after[0].value, ast.Constant) and after[0].value.value is True
+                isinstance(nxt, ast.Return) and isinstance(nxt.value, ast.Constant) and nxt.value.value is True
             return okk, 'return False on mismatch, True after the loop'
         # flag form
         flags = set()
@@ -339,8 +348,9 @@ def check(run):
                 flags.add(x.targets[0].id)
         if len(flags) == 1:
             flag = next(iter(flags))
-            inside = [(st, v) for st, v in q.assigned_value(fn, flag) if q.in_node(st, lp)]
-            outside = [(st, v) for st, v in q.assigned_value(fn, flag) if not q.in_node(st, lp)]
+            in_body = lambda st: any(q.in_node(st, b_) for b_ in lp.body)      # (the else clause of the loop counts as "after the loop without a mismatch")
+            inside = [(st, v) for st, v in q.assigned_value(fn, flag) if in_body(st)]
+            outside = [(st, v) for st, v in q.assigned_value(fn, flag) if not in_body(st)]
             okk = all(isinstance(v, ast.Constant) and v.value is False and mismatch(guard_atoms(st, stop=lp)) for st, v in inside) and \
                 len(outside) == 1 and isinstance(outside[0][1], ast.Constant) and outside[0][1].value is True and \
                 all(isinstance(x, ast.Break) for x in exits)
@@ -365,6 +375,13 @@ def check(run):
                         where_ = fi.short + ' via ' + h[0].name
                         # the helper's verdict must gate the True result
                         gated = any(q.in_node(c, g[0]) and g[1] for x in q.walk(F, False) if isinstance(x, ast.Return) and isinstance(x.value, ast.Constant) and x.value.value is True for g in guards(x))
+                        # .. or be the element of the returned any(..) (possibly conjoined with other tests)
+                        for x in q.walk(F, False):
+                            v0 = strip_cast(x.value) if isinstance(x, ast.Return) and x.value is not None else None
+                            if isinstance(v0, ast.Call) and isinstance(v0.func, ast.Name) and v0.func.id == 'any' and v0.args and isinstance(v0.args[0], (ast.GeneratorExp, ast.ListComp)):
+                                e0 = v0.args[0].elt
+                                conj = e0.values if isinstance(e0, ast.BoolOp) and isinstance(e0.op, ast.And) else [e0]
+                                gated = gated or any(c is strip_cast(y) for y in conj)
                         okk = bool(okk) and gated
         run.check(bool(okk), r3, fi.short, 'True requires every expected parameter to match (%s)' % form,
                   'the parameter comparison does not require all parameters to match (%s, %s)' % (where_, form), F)
